@@ -4,16 +4,16 @@ namespace NV
 
 -- Prototype: structural invariants of the cidr_partition loop output (aligned, ordered, distinct sizes)
 
-def alignedN (w : Nat) (b : N) : Prop := b.val % 2 ^ (w - b.plen) = 0
+def alignedN (w : Nat) (b : Pfx) : Prop := b.val % 2 ^ (w - b.plen) = 0
 
 /-- left blocks ascend and shrink; right blocks (in append order) descend and shrink -/
-def LeftOK (w : Nat) (l : List N) : Prop :=
+def LeftOK (w : Nat) (l : List Pfx) : Prop :=
   (∀ b ∈ l, alignedN w b) ∧ l.Pairwise (fun b c => b.val + 2 ^ (w - b.plen) ≤ c.val ∧ b.plen < c.plen)
-def RightOK (w : Nat) (l : List N) : Prop :=
+def RightOK (w : Nat) (l : List Pfx) : Prop :=
   (∀ b ∈ l, alignedN w b) ∧ l.Pairwise (fun b c => c.val + 2 ^ (w - c.plen) ≤ b.val ∧ b.plen < c.plen)
 
 theorem partLoop_struct (w ef ep : Nat) (_hep : ep ≤ w) :
-    ∀ (fuel np iLower : Nat) (left right : List N),
+    ∀ (fuel np iLower : Nat) (left right : List Pfx),
       fuel = ep + 1 - np → 1 ≤ np → np ≤ ep + 1 → np ≤ w →
       iLower % (2 * 2 ^ (w - np)) = 0 →
       LeftOK w left → RightOK w right →
